@@ -4,6 +4,26 @@ import json, os
 ROOT = os.path.dirname(os.path.dirname(os.path.abspath(__file__)))
 
 CLAIMED = {
+    "C15": dict(
+        engine="xmltok", design_ref="6.15",
+        technique="Lean 4 proof (reader primitives monotone/resumable, step_mono + step_resume + invariant + simulation up "
+                  "to a dead current_char, composed over runs and feed sessions; side condition on the fast-path sets by "
+                  "decide against the regenerated small_char_set! table) + model/code correspondence on an exhaustive "
+                  "state × character-class × suffix cover; code-vs-code oracles for options, CR/NUL/BOM and trees",
+        text="For the model of xml5ever's tokenizer (all 50 states startable through initial_state, char-ref "
+             "sub-tokenizer, qname splitting, duplicate check) it is proved for ALL strings and ALL chunkings that feeding "
+             "any list of chunks leaves the tokenizer in the machine a one-piece feed reaches, up to a dead current_char, "
+             "with the same tokens delivered (C15_chunking), that end() then emits the same tokens (C15_finish_sim), that "
+             "U+FEFF is dropped only as the first character of the stream (C15_bom_once), that every small_char_set! "
+             "contains CR, NUL and its state's special characters (C15_sets_cover, against the table regenerated from "
+             "the source each run) and that outside the set the fast path equals the slow path (C15_fast_eq_slow). "
+             "Partial: independence of exact_errors at run level, 'no raw CR/NUL reaches the sink' as a global invariant, "
+             "the fuel bound of run and the tree-builder level are not theorems; they are checked on the real code by "
+             "code-vs-code oracles (every 2-partition / singletons / random partitions; exact_errors on/off modulo error "
+             "tokens; CR and CRLF spellings vs LF; NUL vs U+FFFD; discard_bom on/off; tokens and RcDom trees).",
+        note="Trusted: Lean kernel; the hand-written model + the xmltok correspondence (token stream incl. error messages on "
+             "state-cover, pair-cover, charref-cover, soup); tools/extract.py; BufferQueue = flat stream (C13). Bulk reads "
+             "are modelled one character at a time (tokens compared after merging character tokens)."),
     "C19": dict(
         engine="meta", design_ref="6.19",
         technique="Lean 4 proof (index-based model of encoding.rs refined to the WHATWG extraction algorithm written as "
@@ -136,8 +156,11 @@ CLAIMED["C11"] = dict(
          "well-formed UTF-8). Below 2^30 bytes the model panics only where the specification does "
          "(C11_no_spurious_panic). The model is tied to the Rust by the tendril correspondence (result, bytes, "
          "inline/owned/shared kind, sharing groups, allocation sizes after every op; 5 formats × 2 atomicities).",
-    note="Partial: WTF-8 (the only format with a concatenation fix-up) has no proved format laws — it is covered by the "
-         "safety theorems of C12, the correspondence and the Python reference only. The check found a genuine defect "
+    note="Partial: WTF-8 (the only format with a concatenation fix-up) cannot satisfy Laws (plain append; "
+         "not_laws_wtf8); its format laws with fix-up are proved (laws_wtf8_partial : LawsFx) but the refinement "
+         "theorem is not yet stated over them (zero-copy merge of adjacent views needs a buffer-level validity "
+         "invariant) — WTF-8 behaviour is covered by the safety theorems of C12, the correspondence and the Python "
+         "reference. The check found a genuine defect "
          "there (WTF8::validate accepted a stray continuation byte after a 2-/3-byte character and skipped what "
          "followed: C11_witness_wtf8_validate_pinned), fixed in /repo by 218f57f; the model follows the fix "
          "(C11_wtf8_validate_rejects_stray) and corpus/C11/wtf8_validate.case keeps the witnesses as regression "
